@@ -959,7 +959,7 @@ func runC01(c *vf.Ctx) {
 		d.Close()
 	}
 	forms := []string{"compact", "jwt", "flat", "general"}
-	rounds := c.Budget(36, 300)
+	rounds := c.Budget(36, 220)
 	if os.Getenv("VERIF_SEARCH") == "1" {
 		rounds *= 3
 	}
@@ -989,9 +989,15 @@ func runC01(c *vf.Ctx) {
 					c01Exec(c, d, c01Mutate(r, v, prev))
 				}
 				// exhaustive byte substitution of short messages
-				if (round == 1 || !c.Quick() && round%20 == 1) && (ai+w)%14 == round%14 && len(v.Case.Data) < 700 {
-					c01Exhaustive(c, d, v, !c.Quick() && len(v.Case.Data) < 300 && a.Family != "rs" && a.Family != "ps")
+				// (quick: 16 messages with a reduced replacement set; thorough: every 4th worker does
+				// all 256 byte values on one message — ≈ 10^6 cases)
+				if (round == 1 || !c.Quick() && round == 21) && (ai+w)%14 == round%14 && len(v.Case.Data) < 700 {
+					full := !c.Quick() && w%4 == 0 && round == 1 && len(v.Case.Data) < 300 && a.Family != "rs" && a.Family != "ps"
+					c01Exhaustive(c, d, v, full)
 					c.Count("exhaustive-messages")
+					if full {
+						c.Count("exhaustive-messages-all-256")
+					}
 				}
 				prev = v
 			}
